@@ -188,6 +188,16 @@ def main(tier, write_baseline=False):
     run.trusted_base.update(["cddvc E1 with the symbolic-key map / JSON-tree view (writes logged on top of an unknown base)", "z3 5.1"])
     run.assumptions.add("the model's own JSON-schema (copied into components.schemas) contains no $ref")
     refuted = e1.run_contracts(run, "contracts.C16")
+
+    def struct_replay(_name):
+        # the clause the side condition on emit.openapi carries ($refs resolve, incl. ServerError), on real documents
+        _ne, _np, fl = bounded("quick")
+        for (driver, kind, multi), (case, what) in fl.items():
+            if run.match_finding({"driver": driver, "kind": kind, "multi_word_model_name": str(multi), "obligation": "C16/bounded/%s/%s" % (driver, kind)}) is None:
+                return {"case": json.loads(json.dumps(case)), "what": what[:400], "driver": driver}
+        return None
+
+    refuted, s_inputs = run.confirm_or_undecide(refuted, struct_replay)
     if write_baseline:
         common.write_baseline("C16", [n for n, o in run.obligations.items() if o["status"] == "proved"])
     compare_baseline(run, set(run.obligations))
@@ -208,7 +218,7 @@ def main(tier, write_baseline=False):
         seen.add(o["name"])
         cand = next((v for k, v in fails.items() if k[0] == "emit"), None) or next(iter(fails.values()), None)
         run.violation(o["name"], "obligation refuted by %s on path %s%s" % (o["backend"], " ".join(o["trace"]), "; ".join(o["notes"][:1])),
-                      failing_input=({"case": json.loads(json.dumps(cand[0])), "what": cand[1]} if cand else None), solver_output={"model": o["model"], "smt2": (o["smt2"] or "")[:5000]})
+                      failing_input=s_inputs.get(o["name"]) or ({"case": json.loads(json.dumps(cand[0])), "what": cand[1]} if cand else None), solver_output={"model": o["model"], "smt2": (o["smt2"] or "")[:5000]})
     for (driver, kind, multi), (case, what) in fails.items():
         run.violation("C16/bounded/%s/%s" % (driver, kind), what, key={"driver": driver, "kind": kind, "multi_word_model_name": str(multi)}, failing_input={"driver": driver, "case": json.loads(json.dumps(case))})
     common.apply_controls(run, tier)
